@@ -183,6 +183,44 @@ def key_outputs(ctx, jwk, rep, extra, rng):
                 ctx.violation(f"private-export-from-public-key:{name}", f"{name} on a public-only {kty} key returned {str(o.value)[:60]!r} instead of raising", case)
 
 
+def odd_public_keys(ctx, rng):
+    """keys the library classes as public although their JWK (or extra parameters) holds members registered as private"""
+    j = J.load()
+    rsa = gen.new_rsa(2048)
+    cases = [("rsa-crt-without-d", lambda: j.RSAKey.import_key({k: v for k, v in rsa.items() if k != "d"}), rsa),
+             ("rsa-crt-without-d-registry", lambda: j.JWKRegistry.import_key({k: v for k, v in rsa.items() if k != "d"}), rsa),
+             ("rsa-public-with-p-only", lambda: j.RSAKey.import_key({**gen.public_jwk(rsa), "p": rsa["p"]}), rsa)]
+    ec = gen.new_ec("P-256")
+    cases.append(("ec-public-with-d-parameter", lambda: j.ECKey.import_key(gen.public_jwk(ec), {"d": ec["d"]}), ec))
+    okp = gen.new_okp("Ed25519")
+    cases.append(("okp-public-pem-with-d-parameter", lambda: j.OKPKey.import_key(gen.to_pem(okp, private=False), {"d": okp["d"]}), okp))
+    for name, mk, jwk in cases:
+        ctx.ev()
+        k = call(mk)
+        ctx.count("odd_public_keys")
+        if not k.ok:
+            ctx.count("odd_public_key_refused_at_import")   # refusing such a JWK is fine
+            continue
+        key = k.value
+        if key.is_private:
+            continue
+        nd = needles_of(jwk)
+        case = {"odd_public_key": name}
+        ctx.nontrivial(("odd", name, jwk.get("n", jwk.get("x"))))
+        o = call(key.as_dict, private=False)
+        if o.ok:
+            scan(ctx, "as_dict(private=False)", o.value, nd, case, private_names_forbidden=True)
+        ks = call(j.KeySet, [key])
+        if ks.ok:
+            o = call(ks.value.as_dict, private=False)
+            if o.ok:
+                scan(ctx, "KeySet.as_dict(private=False)", o.value, nd, case, private_names_forbidden=True)
+        for nm, f in (("as_pem(private=False)", lambda: key.as_pem(private=False)), ("as_pem()", lambda: key.as_pem()), ("as_der()", lambda: key.as_der())):
+            o = call(f)
+            if o.ok:
+                scan(ctx, nm, o.value, nd, case)
+
+
 def token_outputs_jws(ctx, rng, mon):
     cell = SP.Cell(rng)
     if cell.payload_name == "k64":
@@ -256,6 +294,7 @@ def run_shard(ctx):
             jwk = K.new_jwk(kind, rng.choice([None, "d", "x"]) if kind.startswith("EC:") else None)
             for extra in (None, rng.choice(K.EXTRAS[1:])):
                 key_outputs(ctx, jwk, rep, extra, rng)
+        odd_public_keys(ctx, rng)
         n = 60 if ctx.tier == "quick" else 2500
         for i in range(n):
             if ctx.out_of_time():
@@ -281,7 +320,7 @@ def run_shard(ctx):
     ctx.sample({"needles_for_an_EC_key": [n for n, _ in needles_of(gen.new_ec("P-256"))], "outputs": ["as_dict(private=False)", "KeySet.as_dict(private=False)", "PEM/DER public", "thumbprint", "kid", "token segments", "epk"]})
 
 
-REQUIRE = [("outputs_scanned", 1500, "outputs scanned"), ("epk_headers_seen", 10, "epk headers observed"),
+REQUIRE = [("odd_public_keys", 16, "public keys whose JWK holds private-named members"), ("outputs_scanned", 1500, "outputs scanned"), ("epk_headers_seen", 10, "epk headers observed"),
            ("private_export_from_public_key", 50, "private exports requested from public keys"), ("scanner_selftest_hits", 3, "planted leaks found")]
 
 
